@@ -130,7 +130,24 @@ def default_factory_fn():
     return Leaf(-1)
 
 
+class UnhashableFactory:
+    """a callable default_factory without __hash__ (hashing a treespec that mentions it must raise)"""
+
+    __hash__ = None
+
+    def __call__(self):
+        return 0
+
+    def __eq__(self, other):
+        return isinstance(other, UnhashableFactory)
+
+    def __repr__(self):
+        return 'UnhashableFactory()'
+
+
+UNHASHABLE_FACTORY = UnhashableFactory()
 FACTORIES = {'None': None, 'int': int, 'list': list, 'dict': dict, 'fn': default_factory_fn}
+FACTORIES_EXTRA = {'unhashable': UNHASHABLE_FACTORY}
 
 
 # ---------------------------------------------------------------- custom nodes
